@@ -218,9 +218,12 @@ REGISTRY = {
         'rule': 'instances of generated subclasses of the nine built-in bases, nested, all layouts; eval reconstructs class and value',
     },
     'C09': {
-        'theorems': ['PP.C04.sound_pformat', 'PP.C09.commentdoc_lines', 'PP.C09.empty_comment_ignored'],
-        'modules': VALUE_MODULES + ['PP.Props.Values'],
-        'sections': [{'name': 'comments', 'run': values_sec('comments_section')}],
+        'theorems': ['PP.C09.comment_inert', 'PP.C09.trailing_adds_comma', 'PP.Tok.comment_inert', 'PP.C03.output_tokens',
+                     'PP.C04.sound_pformat', 'PP.C09.commentdoc_lines', 'PP.C09.empty_comment_ignored'],
+        'modules': VALUE_MODULES + ['PP.Props.Values', 'PP.Spec.Tokens', 'PP.Proofs.Toks', 'PP.Proofs.ToksStr', 'PP.Proofs.ToksComb', 'PP.Proofs.ToksVal',
+                                    'PP.Proofs.Shown', 'PP.Proofs.Comments', 'PP.Props.C03', 'PP.Props.C09b'],
+        'sections': [{'name': 'comments', 'run': values_sec('comments_section')},
+                     {'name': 'tokens', 'run': values_sec('tokens_section')}],
         'trusted': VALUE_TRUSTED,
         'rule': 'comment / trailing_comment placements, adversarial texts; eval == uncommented value, same ast, words preserved',
     },
